@@ -264,8 +264,69 @@ func runC02(c *mon.Ctx) {
 		cs.Sample(map[string]any{"honour": honour, "accepted": accepted, "flagged": flagged, "err": fmt.Sprint(rerr)})
 	}
 
-	// ---- the store is consulted afresh: after a key roll-over the retired certificate no longer vouches ----
-	nr := c.N(400, 10000)
+	runStoreRotation(c, c.N(400, 10000), nb, na, kinds)
+
+	// ---- one long-lived SP whose clock moves across the signing certificate's window ----
+	nw := c.N(300, 10000)
+	for k := 0; k < nw; k++ {
+		cs := c.Begin("same-sp-clock-walk", k)
+		if cs == nil {
+			continue
+		}
+		r := cs.Rand()
+		member := certFor(pick(r, []string{"idp1", "idp3"}), 10)
+		sp, spy, _ := NewSP(nb.Add(time.Hour), member)
+		kind := []string{"sso-resp", "sso-assert", "logout-req", "logout-resp"}[k%4]
+		var trace []string
+		bad := false
+		for i := 0; i < 3+r.IntN(4) && !bad; i++ {
+			clk := clocks[r.IntN(len(clocks))]
+			if i == 0 {
+				clk = clocks[2]
+			}
+			spy.Set(clk.t)
+			w := NewWorld(clk.t)
+			spec := sim.DefaultSig(member.Key, member)
+			var doc string
+			switch kind {
+			case "logout-req", "logout-resp":
+				l := sim.GenuineLogout(w.Env, kind == "logout-resp")
+				l.Sig = spec
+				doc, _ = sim.BuildLogout(l, sim.PlainStyle())
+			default:
+				rec := sim.GenuineResponse(w.Env, 1)
+				if kind == "sso-resp" {
+					rec.Sig = spec
+				} else {
+					rec.Assertions[0].Sig = spec
+				}
+				doc, _ = sim.BuildResponse(rec, sim.PlainStyle())
+			}
+			enc := sim.Encode(doc, sim.RawLevel)
+			var err error
+			if kind == "logout-req" || kind == "logout-resp" {
+				_, err = callLogout(sp, kind == "logout-resp", enc)
+			} else {
+				_, err = sp.ValidateEncodedResponse(enc)
+			}
+			trace = append(trace, fmt.Sprintf("%s:%v", clk.name, err == nil))
+			if (err == nil) != clk.inside {
+				bad = true
+				cs.Violation("certificate-window-not-rechecked:"+kind, "step %d: clock %s, accepted=%v (trace %v, err %v)", i, clk.name, err == nil, trace, err)
+			}
+		}
+		cs.Desc("kind=%s trace=%v", kind, trace)
+		cs.Nontrivial(fmt.Sprintf("%v/%d", trace, k))
+		if !bad {
+			cs.Outcome("window-rechecked")
+		}
+	}
+}
+
+// runStoreRotation: the store is consulted afresh on every call; after a key roll-over on a long-lived SP the
+// retired certificate no longer vouches and the new one does (shared by C01 and C02).
+func runStoreRotation(c *mon.Ctx, nr int, nb, na time.Time, kinds []string) {
+	certFor := func(name string, serial int64) *sim.Cert { return sim.Mint(sim.K(name), nb, na, serial) }
 	for k := 0; k < nr; k++ {
 		cs := c.Begin("store-rotation", k)
 		if cs == nil {
@@ -335,62 +396,6 @@ func runC02(c *mon.Ctx) {
 			cs.Violation("new-certificate-not-honoured:"+kind, "after the store was rotated (%s) a message signed with the new store member is rejected", how)
 		default:
 			cs.Outcome("rotation-respected:" + how)
-		}
-	}
-
-	// ---- one long-lived SP whose clock moves across the signing certificate's window ----
-	nw := c.N(300, 10000)
-	for k := 0; k < nw; k++ {
-		cs := c.Begin("same-sp-clock-walk", k)
-		if cs == nil {
-			continue
-		}
-		r := cs.Rand()
-		member := certFor(pick(r, []string{"idp1", "idp3"}), 10)
-		sp, spy, _ := NewSP(nb.Add(time.Hour), member)
-		kind := []string{"sso-resp", "sso-assert", "logout-req", "logout-resp"}[k%4]
-		var trace []string
-		bad := false
-		for i := 0; i < 3+r.IntN(4) && !bad; i++ {
-			clk := clocks[r.IntN(len(clocks))]
-			if i == 0 {
-				clk = clocks[2]
-			}
-			spy.Set(clk.t)
-			w := NewWorld(clk.t)
-			spec := sim.DefaultSig(member.Key, member)
-			var doc string
-			switch kind {
-			case "logout-req", "logout-resp":
-				l := sim.GenuineLogout(w.Env, kind == "logout-resp")
-				l.Sig = spec
-				doc, _ = sim.BuildLogout(l, sim.PlainStyle())
-			default:
-				rec := sim.GenuineResponse(w.Env, 1)
-				if kind == "sso-resp" {
-					rec.Sig = spec
-				} else {
-					rec.Assertions[0].Sig = spec
-				}
-				doc, _ = sim.BuildResponse(rec, sim.PlainStyle())
-			}
-			enc := sim.Encode(doc, sim.RawLevel)
-			var err error
-			if kind == "logout-req" || kind == "logout-resp" {
-				_, err = callLogout(sp, kind == "logout-resp", enc)
-			} else {
-				_, err = sp.ValidateEncodedResponse(enc)
-			}
-			trace = append(trace, fmt.Sprintf("%s:%v", clk.name, err == nil))
-			if (err == nil) != clk.inside {
-				bad = true
-				cs.Violation("certificate-window-not-rechecked:"+kind, "step %d: clock %s, accepted=%v (trace %v, err %v)", i, clk.name, err == nil, trace, err)
-			}
-		}
-		cs.Desc("kind=%s trace=%v", kind, trace)
-		cs.Nontrivial(fmt.Sprintf("%v/%d", trace, k))
-		if !bad {
-			cs.Outcome("window-rechecked")
 		}
 	}
 }
